@@ -172,7 +172,7 @@ PROPS = {
         "streams": ["health"], "driver": {"health": "health"}, "level": "proof",
         "trusted_base": LEAN_TB, "assumptions": HEALTH_ASSUME,
         "rule": "healthy storages at T=256 of five kinds (1-3 arrays with large values | 1-2 maps, real digester, large values, oversized keys | maps with digest tables: inline and external collision groups | parents holding inlined arrays/maps with references, external groups and wrappers inside | empty), uncommitted and committed+reloaded, expected = n, n+1, 0, -1 x each corruption kind (delete referenced: pending / committed / physical; extra unreferenced; double reference incl. same slab / behind wrappers; foreign owner at every sibling position) at sampled slabs (all slabs in the thorough tier); partly loaded committed storages (roots only / random part / a root missing / an unloaded slab referenced twice); slab iterator yields; all-child-references on every root, healthy and with a deleted slab; distinct = distinct (label, heap) pairs",
-        "explanation": "Theorems (heap): health_sound / health_complete, four corruption theorems, allrefs_exact, allrefs_general (broken references, no Healthy hypothesis), allrefs_diverges_iff. Theorems (storage): iterator_sound / iterator_skips_deleted / iterator_exact (model of PersistentSlabStorage.SlabIterator on the C15 state machine), storage_check_is_heap_check, storage_complete; array_histories_healthy / array_histories_accepted, map_histories_healthy / map_histories_accepted (every storage produced by a valid single-container history is Healthy and accepted by iterator + check), independent_containers_accepted. Tie: every heap and every storage state (write set, cache, ledger) dumped from the real storage is run through the model (check on the heap; iterator + check on the state; iterator yields; all-child-references) and the outcome incl. the error kind compared with CheckStorageHealth / SlabIterator / GetAllChildReferences. Oracles: construction-time roots (a healthy world must be accepted with exactly its containers' roots, also for -1), an independent graph walker on the independently read heap, the check that has to fire per corruption, error category Fatal, ChildStorables vs register walk.",
+        "explanation": "Theorems (heap): health_sound / health_complete, four corruption theorems, allrefs_exact, allrefs_general (broken references, no Healthy hypothesis), allrefs_diverges_iff, check_order_independent. Theorems (storage): iterator_sound / iterator_skips_deleted / iterator_exact (model of PersistentSlabStorage.SlabIterator on the C15 state machine), storage_check_is_heap_check, storage_complete; array_histories_healthy / array_histories_accepted, map_histories_healthy / map_histories_accepted (every storage produced by a valid single-container history is Healthy and accepted by iterator + check), independent_containers_accepted. Tie: every heap and every storage state (write set, cache, ledger) dumped from the real storage is run through the model (check on the heap; iterator + check on the state; iterator yields; all-child-references) and the outcome incl. the error kind compared with CheckStorageHealth / SlabIterator / GetAllChildReferences. Oracles: construction-time roots (a healthy world must be accepted with exactly its containers' roots, also for -1), an independent graph walker on the independently read heap, the check that has to fire per corruption, error category Fatal, ChildStorables vs register walk.",
     },
     "C15": {
         "streams": ["storage", "storageexh", "slabid"], "driver": {"storage": "storage", "storageexh": "storage", "slabid": "slabid"}, "level": "proof",
